@@ -184,15 +184,17 @@ class H2Protocol:
             data = await self.stream_buffers[stream_id].pop(chunk_size)
             if data:
                 self.connection.send_data(stream_id, data)
-                await self._flush()
             else:
                 self.priority.block(stream_id)
 
+            # The stream must be ended before anything waiting on the
+            # (now empty) buffer can run, as that may close the
+            # connection (graceful shutdown).
             if self.stream_buffers[stream_id].complete:
                 self.connection.end_stream(stream_id)
-                await self._flush()
                 del self.stream_buffers[stream_id]
                 self.priority.remove_stream(stream_id)
+            await self._flush()
         except (h2.exceptions.StreamClosedError, KeyError, h2.exceptions.ProtocolError):
             # Stream or connection has closed whilst waiting to send
             # data, not a problem - just force close it. (The stream
